@@ -24,6 +24,7 @@ package main
 //@ pred underConfig(p string) := ext("strings.HasPrefix", p, "hidi-config", "bool")
 // what the walk is assumed to visit lies inside its root; the blacklist is not inside the factory tree
 //@ axiom C18_walk_inside: forall root string, q string, d fs.DirEntry :: inWalk(root, q, d) ==> ext("strings.HasPrefix", q, root, "bool")
+//@ axiom C18_sentinels: fs.SkipDir != nil && fs.SkipAll != nil
 //@ axiom C18_blacklist_outside: !ext("strings.HasPrefix", "hidi-config/device blacklist.txt", "hidi-config/factory", "bool")
 
 // per-entry result of the factory update: the entry exists and, if it is a file, equals its template
@@ -36,6 +37,8 @@ package main
 // (the walk is over the embedded template tree, which is compiled in: its roots exist, so entries are never nil)
 //@   requires inWalk("hidi-config/factory", path, entry) && entry != nil
 //@   walkpost [C18] restored(path, entry)
+// the summary of the walk relies on every entry being visited: the callback must not ask the walk to skip anything
+//@   ensures [C18] result != fs.SkipDir && result != fs.SkipAll
 //@   walkrel [C18] forall q string :: !underFactory(q) ==> (fsExists[q] <==> old(fsExists[q])) && fsData[q] == old(fsData[q])
 //@   walkrel [C18] forall q string :: old(fsExists[q]) ==> fsExists[q]
 //@   walkrel [C18] (forall q string, dq fs.DirEntry :: inWalk("hidi-config/factory", q, dq) ==> old(restored(q, dq))) ==> fsExists == old(fsExists) && fsData == old(fsData)
@@ -51,6 +54,7 @@ package main
 //@ func updateHIDIConfiguration$1
 //@   requires inWalk("hidi-config", path, d) && d != nil
 //@   walkpost [C18] created(path, d)
+//@   ensures [C18] result != fs.SkipDir && result != fs.SkipAll
 //@   walkrel [C18] forall q string :: !underConfig(q) ==> (fsExists[q] <==> old(fsExists[q])) && fsData[q] == old(fsData[q])
 //@   walkrel [C18] forall q string :: old(fsExists[q]) ==> fsExists[q]
 //@   ensures [C18] forall q string :: q != path ==> (fsExists[q] <==> old(fsExists[q])) && fsData[q] == old(fsData[q])
